@@ -29,7 +29,7 @@ class ValidationScenario(StateScenario):
                              schema_validators=rng.choice([0.3, 0.6]), featureflags=rng.choice([0.0, 0.3, 0.6]), depth=rng.choice([1, 2, 2, 3]),
                              p_list_schema=rng.choice([0.15, 0.3]), p_configtype=rng.choice([0.0, 0.2]), filename_fs=False,
                              kinds=[k for k in schema.LEAF_KINDS if k not in ("filename",) and rng.random() < 0.55] or ["int", "string"],
-                             virtual=False)
+                             virtual=False, p_dynamic=rng.choice([0.0, 0.2, 0.4]), p_empty_section=rng.choice([0.0, 0.3, 0.5]))
 
     def weights(self, rng):
         return {"set": 3, "load_tree": 5, "loads": 3, "validate": 4, "insert_item": 3, "assign_sub": 1.5, "reset": 0.7, "flag": 1.5}
